@@ -344,6 +344,10 @@ class RTCIceTransport(AsyncIOEventEmitter):
         except ConnectionError:
             self.__setState("failed")
         else:
+            if self.__state == "closed":
+                # stop() ran while the checks were completing, shut down what
+                # the connection started after that
+                await self._connection.close()
             self.__setState("completed")
         self.__start.set()
 
